@@ -16,6 +16,44 @@ type wrappedStringDecoder struct {
 	structName    string
 	fieldName     string
 	isPtrType     bool
+	scalarSize    uintptr // size of a bool / integer / float destination, 0 for anything else
+}
+
+// scalar is the previous contents of a scalar destination. The inner decoder stores the
+// value before the payload has been checked as a whole ("12x" stores 12): when the payload
+// turns out not to be exactly one literal the destination gets its previous contents back.
+type scalar struct {
+	u8  uint8
+	u16 uint16
+	u32 uint32
+	u64 uint64
+}
+
+func (d *wrappedStringDecoder) save(p unsafe.Pointer) (old scalar) {
+	switch d.scalarSize {
+	case 1:
+		old.u8 = *(*uint8)(p)
+	case 2:
+		old.u16 = *(*uint16)(p)
+	case 4:
+		old.u32 = *(*uint32)(p)
+	case 8:
+		old.u64 = *(*uint64)(p)
+	}
+	return old
+}
+
+func (d *wrappedStringDecoder) restore(p unsafe.Pointer, old scalar) {
+	switch d.scalarSize {
+	case 1:
+		*(*uint8)(p) = old.u8
+	case 2:
+		*(*uint16)(p) = old.u16
+	case 4:
+		*(*uint32)(p) = old.u32
+	case 8:
+		*(*uint64)(p) = old.u64
+	}
 }
 
 func newWrappedStringDecoder(typ *runtime.Type, dec Decoder, structName, fieldName string) *wrappedStringDecoder {
@@ -26,7 +64,19 @@ func newWrappedStringDecoder(typ *runtime.Type, dec Decoder, structName, fieldNa
 		structName:    structName,
 		fieldName:     fieldName,
 		isPtrType:     typ.Kind() == reflect.Ptr,
+		scalarSize:    scalarSizeOf(typ),
 	}
+}
+
+func scalarSizeOf(typ *runtime.Type) uintptr {
+	switch typ.Kind() {
+	case reflect.Bool,
+		reflect.Int, reflect.Int8, reflect.Int16, reflect.Int32, reflect.Int64,
+		reflect.Uint, reflect.Uint8, reflect.Uint16, reflect.Uint32, reflect.Uint64, reflect.Uintptr,
+		reflect.Float32, reflect.Float64:
+		return typ.Size()
+	}
+	return 0
 }
 
 func (d *wrappedStringDecoder) DecodeStream(s *Stream, depth int64, p unsafe.Pointer) error {
@@ -42,11 +92,14 @@ func (d *wrappedStringDecoder) DecodeStream(s *Stream, depth int64, p unsafe.Poi
 	}
 	b := make([]byte, len(bytes)+1)
 	copy(b, bytes)
+	old := d.save(p)
 	c, err := d.dec.Decode(&RuntimeContext{Buf: b}, 0, depth, p)
 	if err != nil {
+		d.restore(p, old)
 		return err
 	}
 	if err := d.validatePayload(bytes, c, s.totalOffset()); err != nil {
+		d.restore(p, old)
 		return err
 	}
 	return nil
@@ -82,12 +135,15 @@ func (d *wrappedStringDecoder) Decode(ctx *RuntimeContext, cursor, depth int64, 
 	bytes = append(bytes, nul)
 	oldBuf := ctx.Buf
 	ctx.Buf = bytes
+	old := d.save(p)
 	consumed, err := d.dec.Decode(ctx, 0, depth, p)
 	ctx.Buf = oldBuf
 	if err != nil {
+		d.restore(p, old)
 		return 0, err
 	}
 	if err := d.validatePayload(bytes[:payloadLen], consumed, c); err != nil {
+		d.restore(p, old)
 		return 0, err
 	}
 	return c, nil
